@@ -781,6 +781,29 @@ def _get(obj, *names):
     return obj
 
 
+def _as_items(c):
+    """(key, value) pairs of a private cache container whatever its type (dict, namedtuple, record object with __dict__ or
+    __slots__, list/tuple); an unknown shape is recorded as missing (privately observable only -> skipped, counted), never an error"""
+    if c is None:
+        return []
+    if isinstance(c, dict):
+        return list(c.items())
+    if hasattr(c, '_asdict'):
+        try:
+            return list(c._asdict().items())
+        except Exception:  # noqa
+            pass
+    if isinstance(c, (list, tuple)):
+        return list(enumerate(c))
+    if hasattr(c, '__dict__') and vars(c):
+        return list(vars(c).items())
+    slots = getattr(type(c), '__slots__', None)
+    if slots:
+        return [(n, getattr(c, n)) for n in slots if hasattr(c, n)]
+    MISSING.add('%s as cache container' % type(c).__name__)
+    return []
+
+
 def const_snapshot(G):
     """everything that is input to the evaluation and must never be written: spline / grid tables, stub tables"""
     snap = {}
@@ -809,9 +832,9 @@ def cache_snapshot(G):
             snap['inner.' + k] = _b(_get(G.inner, k))
     for k in ('_cache_R_i', '_cache_R_ik'):
         snap['outer.' + k] = _b(_get(G.outer, k))
-    for k, v in (_get(im, '_cache') or {}).items():
+    for k, v in _as_items(_get(im, '_cache')):
         if isinstance(v, np.ndarray):
-            snap['interp._cache.' + k] = _b(v)
+            snap['interp._cache.' + str(k)] = _b(v)
     if G.stub is not None:
         snap['stub._stored'] = _b(G.stub._stored)
     snap['single._cache_nsgrad_i'] = _b(_get(G.single, '_cache_nsgrad_i'))
